@@ -384,6 +384,29 @@ func c14Run(c *engine.Ctx) {
 			}
 		}
 	})
+	// rings with many vertices: convex lattice hulls (up to ~40 vertices from 200 points) around
+	// each offset, every start vertex, both directions
+	for _, m := range []int{37, 1009, 65521} {
+		var pts []ref.P2
+		for k := 0; k < 200; k++ {
+			pts = append(pts, ref.P2{X: float64((k * 7919) % m), Y: float64((k*104729 + k*k) % m)})
+		}
+		h := ref.Hull(pts)
+		if len(h) < 3 {
+			continue
+		}
+		for k := range h {
+			for _, rev := range []bool{false, true} {
+				closed := rot(h, k, rev)
+				off := offsets[k%3]
+				l := layouts[k%4]
+				c.Count("large_rings", 1)
+				c14Exec(c, c14Case{Mode: "ring", Layout: l, Rings: [][]ref.F{ringF(closed, off)}})
+				c14Exec(c, c14Case{Mode: "polygons", Layout: l, Rings: [][]ref.F{ringF(closed, off)}, Counts: []int{1}})
+				c14Exec(c, c14Case{Mode: "lines", Layout: l, Rings: [][]ref.F{ringF(closed, off)}})
+			}
+		}
+	}
 	// polygons with holes on a larger grid
 	n := 5
 	if c.Thorough() {
